@@ -1,0 +1,62 @@
+//go:build verif
+
+package properties
+
+// Contracts for the deductive verifier in /verif (build tag verif: not compiled
+// into normal builds).
+
+// VV is the specification of MaybeFloat.V: the number for a Float, 0 for the
+// special values (auto, nil-like).
+func VV(m MaybeFloat) Float {
+	if f, ok := m.(Float); ok {
+		return f
+	}
+	return 0
+}
+
+//@ func (Float).V
+//@   props C10 C12
+//@   nopanic
+//@   ensures result == f
+
+//@ func (special).V
+//@   props C10 C12
+//@   nopanic
+//@   ensures result == 0
+
+// Dispatch table of the interface method (assumed: Float and special are the only
+// implementations of MaybeFloat in the program; each is proved above).
+//@ func iface (properties.MaybeFloat).V
+//@   pure
+//@   ensures result == VV(self)
+
+// Computed styles are read-only during layout: accessors are functions of the style value.
+//@ func iface (properties.ElementStyle).Get*
+//@   pure
+//@ func iface (properties.StyleAccessor).Get*
+//@   pure
+
+//@ func Min
+//@   props C10
+//@   nopanic
+//@   ensures result <= x && result <= y && (result == x || result == y)
+
+//@ func Max
+//@   props C10
+//@   nopanic
+//@   ensures result >= x && result >= y && (result == x || result == y)
+
+// css-values: a pixel length is itself, a percentage p resolves to p*referTo/100,
+// `auto` stays auto and a missing value stays missing.
+//@ func ResolvePercentage
+//@   props C10
+//@   requires value.IsNone() || value.S == "auto" || value.Unit == Px || value.Unit == Perc
+//@   nopanic
+//@   ensures value.IsNone() ==> result == nil
+//@   ensures !value.IsNone() && value.S == "auto" ==> result == AutoF
+//@   ensures !value.IsNone() && value.S != "auto" && value.Unit == Px ==> result == value.Value
+//@   ensures !value.IsNone() && value.S != "auto" && value.Unit != Px ==> result == referTo * value.Value / 100
+
+//@ func (DimOrS).IsNone
+//@   props C10
+//@   inline
